@@ -518,6 +518,31 @@ func execExclusiveT3(t *trace, script []string) {
 			// successor not yet installed) while call 2 is made; then call 1 goes on.  Calls 1 and 2 must never execute
 			// their (blocking) work functions at the same time, and call 2 must be answered by its own execution.
 			by := func(th int) func(hk.Event) bool { return func(e hk.Event) bool { return tid(e.G) == th } }
+			if variant >= 16 {
+				// Stale fetch (T4).  Call 0 is held at its `run` hook (it holds the key's mutex, its item is still the one in the
+				// map) while call 1 is made: call 1 fetches that item and blocks on the mutex.  Call 0 goes on — installs the
+				// successor, unlocks — and is held again right before it invokes its work function; call 1 now gets the mutex,
+				// must find its item stale WITHOUT having touched it, and attach to the successor.  Then call 0 executes: the
+				// function it runs must be its own.
+				gr := gate.Arm("excl.run", by(0))
+				gw := gate.Arm("excl.work", by(0))
+				spawn(0)
+				held0 := gr.Wait(gateTimeout)
+				spawn(1)
+				time.Sleep(2 * time.Millisecond) // call 1 has fetched the item and waits for the key's mutex
+				gr.Release()
+				held1 := gw.Wait(gateTimeout)
+				time.Sleep(2 * time.Millisecond) // call 1 re-validates, retries, attaches to the successor
+				gw.Release()
+				time.Sleep(2 * time.Millisecond)
+				spawn(2)
+				time.Sleep(2 * time.Millisecond)
+				log.Add("handover held0=%v held1=%v", held0, held1)
+				next = ncalls
+			}
+		}
+		if handover && variant < 16 {
+			by := func(th int) func(hk.Event) bool { return func(e hk.Event) bool { return tid(e.G) == th } }
 			g0 := gate.Arm("excl.clear", by(0))
 			g1 := gate.Arm("excl.run", by(1))
 			spawn(0)
@@ -644,7 +669,7 @@ func execExclusiveT3(t *trace, script []string) {
 }
 
 func genExclusiveT3(r *rng.R, tier string, i int) []string {
-	if i < 16 {
+	if i < 20 {
 		return []string{fmt.Sprintf("handover %d %d", i, r.Intn(1<<30))}
 	}
 	if i%5 == 2 {
